@@ -23,7 +23,7 @@ func init() {
 			"(so regressions and repeats follow the last confirmed epoch); IsActive returns that reader; nothing else in builtInFunctions writes the flag; activationEpoch is stored only by the constructor from the parameter the factory feeds with the " +
 			"configured ESDTNFTImprovementV1ActivationEpoch; the constructor registers the object with the notifier before every success return; exactly the table's epoch rows use the epoch-driven IsActive, all others return constant true. " +
 			"R3: the container's key listing appends every key it reads (no filter by activity or anything else), so what the container reports is what was registered. The activation epoch may be stored in a helper (resolved through all its call sites to the epoch parameter of registered constructors) and may be kept by the factory in a literal map asked with the protocol name (the row of that name). " +
-			"All obligations are structural and finite; none is assumed.",
+			"A flag held by pointer must be an object allocated for the function object itself (a flag looked up in a shared table lets one function's notifications decide another's activation). All obligations are structural and finite; none is assumed.",
 		Trusted: []string{"sync/atomic", "the epoch notifier calls EpochConfirmed for every confirmed epoch", "T-REG (spec/registry.json)"},
 		Rules:   []func(*Ctx){c18r1, c18r2, c18r3},
 	})
